@@ -206,6 +206,7 @@ pub fn gen_ws(ch: &mut Chooser, cx: &mut CaseCtx, o: &WsGenOpts) -> WsCase {
             d.header = HeaderKind::Git;
             d.strip = 1;
             d.orig_style = false;
+            d.spelling = 0;
         } else if d.header == HeaderKind::Git {
             d.header = HeaderKind::Plain;
         }
@@ -222,16 +223,18 @@ pub fn gen_ws(ch: &mut Chooser, cx: &mut CaseCtx, o: &WsGenOpts) -> WsCase {
         let failing_here = fail_idx == Some(pi) || fail_idx2 == Some(pi);
         // which ops of a failing patch fail: decided per op below (at least one forced)
         let mut any_failed = false;
+        // the refused rename stays the only failure of the patch (then no reject file is written at all)
+        let mut sole_failure = false;
         let mut touched: Vec<String> = Vec::new();
         for oi in 0..nops {
-            let want_fail = failing_here && (ch.chance(1, 2) || (oi + 1 == nops && !any_failed));
+            let want_fail = failing_here && !sole_failure && (ch.chance(1, 2) || (oi + 1 == nops && !any_failed));
             let states_ref = &states;
             let strict = o.strict_reject_dirs;
             // the directory must exist in every state a push could start from
             let rej_dir_ok = |p: &str| -> bool { !strict || states_ref.iter().all(|st| dir_exists(st, dir_of(p))) };
             let existing: Vec<String> = next.files.keys().filter(|p| !touched.contains(p)).cloned().collect();
             let nonempty: Vec<String> = existing.iter().filter(|p| !next.files[*p].data.is_empty()).cloned().collect();
-            let mut kind = ch.weighted(&[10, 3, 2, 1, if o.allow_rename && git && !reverse { 2 } else { 0 }, if o.allow_mode && git { 2 } else { 0 }]);
+            let mut kind = ch.weighted(&[10, 3, 2, 1, if o.allow_rename && git && !reverse { if failing_here { 5 } else { 2 } } else { 0 }, if o.allow_mode && git { 2 } else { 0 }]);
             if existing.is_empty() {
                 kind = 1;
             }
@@ -353,6 +356,79 @@ pub fn gen_ws(ch: &mut Chooser, cx: &mut CaseCtx, o: &WsGenOpts) -> WsCase {
                     ops.push(FileOp { kind: if to_null { "delete".into() } else { "truncate".into() }, old_path: path.clone(), new_path: path.clone(), target: path, hunks: fp.hunks.clone(), failing_hunks: failing, fail_reason });
                     specs.push(fp);
                 }
+                4 if failing_here && nonempty.len() >= 2 && ch.chance(1, 3) => {
+                    // a rename that cannot be carried out, inside a failing patch (whatever it does must be undone):
+                    //  V1 the new name is an existing non-empty file: refused, the patch fails, no reject for it
+                    //  V2 the old name does not exist and the new name does ("already has the name"): the hunks
+                    //     go to the new name in place; used only when the patch fails anyway
+                    let bi = ch.below(nonempty.len());
+                    let b = nonempty[bi].clone();
+                    let fb = next.files[&b].clone();
+                    let blines = split_lines(&fb.data);
+                    if want_fail && ch.chance(1, 2) {
+                        let others: Vec<String> = nonempty.iter().filter(|p| **p != b).cloned().collect();
+                        let a = others[ch.below(others.len())].clone();
+                        let fa = next.files[&a].clone();
+                        let alines = split_lines(&fa.data);
+                        let (nl, eops) = if ch.chance(1, 2) { gen_edit(ch, &alines, alpha, true) } else { (alines.clone(), vec![Op::Keep; alines.len()]) };
+                        let chg = FileChange { old_path: a.clone(), new_path: b.clone(), old: Some(alines.clone()), new: Some(nl), old_mode: Some(fa.mode), new_mode: Some(fa.mode), rename: true };
+                        let fp = build_file_patch(ch, &d, &chg, &eops, c.max(1), merge);
+                        sole_failure = !any_failed && ch.chance(1, 2);
+                        any_failed = true;
+                        feat.push("rename-onto-existing-file".into());
+                        if sole_failure {
+                            feat.push("refused-rename-is-the-only-failure".into());
+                        }
+                        touched.push(a.clone());
+                        touched.push(b.clone());
+                        ops.push(FileOp { kind: "rename".into(), old_path: a.clone(), new_path: b, target: a, hunks: fp.hunks.clone(), failing_hunks: vec![], fail_reason: Some("rename-onto-existing".into()) });
+                        specs.push(fp);
+                    } else {
+                        let Some(a) = new_path(ch, &next, &ever, false) else { continue };
+                        let (nl, eops) = gen_edit(ch, &blines, alpha, true);
+                        let chg = FileChange { old_path: a.clone(), new_path: b.clone(), old: Some(blines.clone()), new: Some(nl.clone()), old_mode: Some(fb.mode), new_mode: Some(fb.mode), rename: true };
+                        let mut fp = build_file_patch(ch, &d, &chg, &eops, c.max(1), merge);
+                        let mut failing = vec![];
+                        let mut fail_reason = None;
+                        if want_fail && !fp.hunks.is_empty() && rej_dir_ok(&b) {
+                            let hi = ch.below(fp.hunks.len());
+                            if break_hunk(&mut fp.hunks[hi], b'-') {
+                                failing = vec![hi];
+                                fail_reason = Some("no-match".into());
+                                any_failed = true;
+                            }
+                        }
+                        if fail_reason.is_none() && !any_failed {
+                            // the patch might apply as a whole: do not rely on what the tool makes of this shape
+                            continue;
+                        }
+                        ever.push(a.clone());
+                        feat.push("rename-already-has-the-name".into());
+                        touched.push(a.clone());
+                        touched.push(b.clone());
+                        ops.push(FileOp { kind: "rename".into(), old_path: a, new_path: b.clone(), target: b, hunks: fp.hunks.clone(), failing_hunks: failing, fail_reason });
+                        specs.push(fp);
+                    }
+                }
+                4 if o.allow_hard_error && fail_at.is_some() && !failing_here && ch.chance(1, 3) => {
+                    // after the failing patch (never reached by a single-threaded run; run-ahead workers meet it
+                    // and must undo whatever they did): a rename onto a directory - loading the new name is an error
+                    let dirs: Vec<String> = states[0].files.keys().filter(|p| p.contains('/')).map(|p| dir_of(p).to_string()).filter(|d| states.iter().all(|st| dir_exists(st, d)) && dir_exists(&next, d)).collect();
+                    if dirs.is_empty() {
+                        continue;
+                    }
+                    let path = nonempty[ch.below(nonempty.len())].clone();
+                    let newp = dirs[ch.below(dirs.len())].clone();
+                    let f = next.files[&path].clone();
+                    let lines = split_lines(&f.data);
+                    let (nl, eops) = if ch.chance(1, 2) { gen_edit(ch, &lines, alpha, true) } else { (lines.clone(), vec![Op::Keep; lines.len()]) };
+                    let chg = FileChange { old_path: path.clone(), new_path: newp.clone(), old: Some(lines.clone()), new: Some(nl), old_mode: Some(f.mode), new_mode: Some(f.mode), rename: true };
+                    let fp = build_file_patch(ch, &d, &chg, &eops, c.max(1), merge);
+                    feat.push("rename-onto-directory-after-the-failing-patch".into());
+                    touched.push(path.clone());
+                    ops.push(FileOp { kind: "rename".into(), old_path: path.clone(), new_path: newp, target: path, hunks: fp.hunks.clone(), failing_hunks: vec![], fail_reason: Some("rename-onto-directory".into()) });
+                    specs.push(fp);
+                }
                 4 => {
                     // rename (git only, forward only), optionally with an edit
                     let path = nonempty[ch.below(nonempty.len())].clone();
@@ -435,7 +511,7 @@ pub fn gen_ws(ch: &mut Chooser, cx: &mut CaseCtx, o: &WsGenOpts) -> WsCase {
                     // differing ---/+++ names (not a rename): the tool must patch the old name if that file
                     // currently exists (on disk or as left by earlier patches of the run), else the new name
                     let mut alt_note: Option<String> = None;
-                    if o.alt_name_chance > 0 && !reverse && !missing_file && !target_is_dir && !mode_change && ch.chance(o.alt_name_chance, 8) {
+                    if o.alt_name_chance > 0 && !missing_file && !target_is_dir && !mode_change && ch.chance(o.alt_name_chance, 8) {
                         let gone: Vec<String> = ever.iter().filter(|p| !next.files.contains_key(*p) && !touched.contains(*p) && !path_conflicts(&next, p, &[])).cloned().collect();
                         if ch.chance(1, 2) {
                             // V1: old name does not exist (never did, or was deleted/renamed away earlier), new = the file
@@ -460,6 +536,10 @@ pub fn gen_ws(ch: &mut Chooser, cx: &mut CaseCtx, o: &WsGenOpts) -> WsCase {
                     }
                     if let Some(n) = &alt_note {
                         feat.push(n.clone());
+                        if reverse {
+                            // the old name is looked at first whatever the direction
+                            feat.push("alt-names-with-R".into());
+                        }
                     }
                     let mut cc = c;
                     let mut dd = d.clone();
@@ -610,6 +690,9 @@ pub fn gen_ws(ch: &mut Chooser, cx: &mut CaseCtx, o: &WsGenOpts) -> WsCase {
         }
         if d.strip != 1 {
             feat.push("strip!=1".into());
+        }
+        if d.spelling != 0 {
+            feat.push(["", "name-with-doubled-slash", "name-with-interior-dot", "name-with-leading-dot"][d.spelling as usize].into());
         }
         series.push(line);
         if ch.chance(1, 10) {
